@@ -96,6 +96,10 @@ func (s *JavaRefactorListener) EnterClassOrInterfaceType(ctx *ClassOrInterfaceTy
 }
 
 func (s *JavaRefactorListener) EnterAnnotation(ctx *AnnotationContext) {
+	// java.lang.@Nullable String: an annotation inside a qualified type name has no qualifiedName child
+	if ctx.QualifiedName() == nil {
+		return
+	}
 	annotation := ctx.QualifiedName().GetText()
 
 	startLine := ctx.GetStart().GetLine()
